@@ -70,6 +70,24 @@ theorem find_reverse_last (p : Bytes → Bool) (l : List Bytes) (x : Bytes) (h :
     have := hno y (List.mem_reverse.mp hy)
     simpa using this
 
+/-- PreCheckBlock keeps the `BlockIndex` entry found under the 8-byte key of the previous-block field only if the
+    entry's WHOLE hash is that field (needs the regenerated fact `parentHashCompared = true`) -/
+theorem parentOf_some (i : PreIn) (ch : List Node) (h : parentOf i = some ch) :
+    i.parent = some (i.parentHash, ch) := by
+  unfold parentOf at h
+  split at h
+  · simp at h
+  · rename_i ph ch' hp
+    have hc : parentHashCompared = true := by decide
+    simp only [hc, Bool.true_and] at h
+    split at h
+    · simp at h
+    · rename_i hne
+      simp only [Option.some.injEq] at h
+      subst h
+      have : ph = i.parentHash := by simpa using hne
+      rw [hp, this]
+
 /-- the result code `"ok"` is PreCheckBlock's success only -/
 theorem preErr_code_ok {e : PreErr} (h : e.code = "ok") : e = .ok := by
   cases e <;> first | rfl | (exact absurd h (by decide))
